@@ -17,7 +17,7 @@ var strPool = []string{
 
 var keyPool = []string{"a", "b", "c", "k", "key", "x y", "", "A", "ʞa", "ʞb", "ʞc", "ʞk", "ʞkey", "ʞx-y", "1"}
 
-var symPool = []string{"a", "b", "x", "y", "foo", "bar-baz", "+", "-", "*", "/", "<=", "a1", "nil?", "swap!", "->", "x*", "é", "_", "λ"}
+var symPool = []string{"$x", "$NUMBER", "$b", "a", "b", "x", "y", "foo", "bar-baz", "+", "-", "*", "/", "<=", "a1", "nil?", "swap!", "->", "x*", "é", "_", "λ"}
 
 var kwNames = []string{"a", "b", "k", "key", "x-y", "a1", "é", "+", "kw?"}
 
